@@ -20,6 +20,7 @@ import Bpp.Hiding
 import Bpp.Extract
 import Bpp.CountThm
 import Bpp.ScalarField
+import Bpp.FreeModule
 /-! # Property theorems
 
 Only the property statements live here, one block per C-id, each about the **executable** model functions of
@@ -236,6 +237,25 @@ theorem C02_driver_field :
    fun a b => ⟨toZ_mul a b, canon_mul a b⟩, fun a b hb => ⟨toZ_sub a b hb, canon_sub a b⟩,
    fun a ha => ⟨toZ_neg a ha, canon_neg a⟩, fun a => ⟨toZ_inv a, canon_inv a⟩,
    fun n => ⟨toZ_natCast n, canon_natCast n⟩⟩
+
+/-- **The driver's group carrier is the free module.** `Model.SVec` (sorted sparse vectors over `Model.Fl`) with its
+    `+ - • 0 basis`: the coefficient map into functions `ℕ → ZMod ℓ` commutes with every operation, the operations
+    preserve the representation invariant (canonical coefficients, strictly increasing ids), and under it the printed
+    normal form is empty exactly when every coefficient vanishes — which is the test "residual = 0" of the reference
+    verifier the correspondence check runs. -/
+theorem C02_driver_module :
+    (∀ (a b : Model.SVec) i, coeffZ (a + b) i = coeffZ a i + coeffZ b i) ∧
+    (∀ (a b : Model.SVec) i, WFV b → coeffZ (a - b) i = coeffZ a i - coeffZ b i) ∧
+    (∀ (c : Model.Fl) (a : Model.SVec) i, coeffZ (c • a) i = toZ c * coeffZ a i) ∧
+    (∀ i, coeffZ (0 : Model.SVec) i = 0) ∧
+    (∀ j i, coeffZ (Model.SVec.basis j) i = if j = i then 1 else 0) ∧
+    (∀ (a : Model.SVec) i, coeffZ a.norm i = coeffZ a i) ∧
+    (∀ a b : Model.SVec, WFV a → WFV b → WFV (a + b) ∧ WFV (a - b)) ∧
+    (∀ (c : Model.Fl) (a : Model.SVec), WFV a → WFV (c • a)) ∧
+    WFV (0 : Model.SVec) ∧ (∀ j, WFV (Model.SVec.basis j)) ∧
+    (∀ a : Model.SVec, WFV a → (a.norm.terms = [] ↔ ∀ i, coeffZ a i = 0)) :=
+  ⟨coeffZ_add, fun a b i hb => coeffZ_sub a b hb.1 i, coeffZ_smul, coeffZ_zero, coeffZ_basis, coeffZ_norm,
+   fun a b ha hb => ⟨wf_add a b ha hb, wf_sub a b ha hb⟩, wf_smul, wf_zero, wf_basis, norm_empty_iff⟩
 
 /-- non-vacuity of `C02_knowledge_sound`: a valid witness yields such a tree at every challenge pair -/
 theorem C02_tree_satisfiable (I : RangeInst F M) (hn : 0 < I.n) (κ : ℕ) (hN : I.n * I.m = 2^κ)
